@@ -78,10 +78,18 @@ impl BinRead for ChunkData {
             err: Box::new(BlteError::UnknownCompressionMode(mode_byte)),
         })?;
 
-        // Read remaining data
+        // Read remaining data. `compressed_size` comes from the chunk table and is
+        // not trusted: read up to that many bytes instead of allocating them up
+        // front, and fail the way `read_exact` does if the stream ends early.
         let data_size = compressed_size - 1;
-        let mut data = vec![0u8; data_size];
-        reader.read_exact(&mut data)?;
+        let mut data = Vec::new();
+        reader
+            .by_ref()
+            .take(data_size as u64)
+            .read_to_end(&mut data)?;
+        if data.len() != data_size {
+            return Err(binrw::Error::Io(std::io::ErrorKind::UnexpectedEof.into()));
+        }
 
         Ok(Self {
             mode,
@@ -246,6 +254,18 @@ mod tests {
 
         assert_eq!(parsed.mode, chunk.mode);
         assert_eq!(parsed.data, chunk.data);
+    }
+
+    #[test]
+    fn test_chunk_data_size_beyond_input_is_error() {
+        // Chunk table claims ~4 GiB but only 4 bytes follow: error, no huge allocation
+        let bytes = [b'N', 1, 2, 3];
+        let result = ChunkData::read_options(
+            &mut std::io::Cursor::new(&bytes),
+            binrw::Endian::Big,
+            (u32::MAX as usize,),
+        );
+        assert!(result.is_err());
     }
 
     #[test]
